@@ -138,9 +138,31 @@ def _run_one(args):
         out['err'] = 'case exceeded %.0fs watchdog' % timeout
     except BaseException as e:  # incl. SystemExit escaping a monitor
         out = Result(case).out()
-        out['status'] = 'error'
-        out['err'] = '%s: %s\n%s' % (type(e).__name__, e,
-                                     traceback.format_exc()[-1500:])
+        tb = traceback.extract_tb(e.__traceback__)
+        src = os.path.join(os.path.abspath(os.environ.get(
+            'VERIF_DASSH_SRC', '/repo')), 'dassh') + os.sep
+        inner = tb[-1] if tb else None
+        if isinstance(e, Exception) and inner is not None and \
+                os.path.abspath(inner.filename).startswith(src):
+            # An exception raised by DASSH's own code (innermost frame in
+            # the package) while a generated, valid case was being run: the
+            # property is stated for every input and there is no result for
+            # this one. Reported as a violation with the traceback as the
+            # witness; on the unchanged tree this never happens (it would
+            # have been a harness error before, equally fatal).
+            where = '%s:%s' % (os.path.basename(inner.filename), inner.name)
+            out['viol'].append({
+                'monitor': 'X_no_unhandled_exception_in_dassh',
+                'msg': 'DASSH raised %s: %s at %s while the case was run'
+                       % (type(e).__name__, str(e)[:200], where),
+                'key': {'exc': type(e).__name__, 'where': where},
+                'data': {'traceback': traceback.format_exc()[-1500:]}})
+            out['counts']['X_no_unhandled_exception_in_dassh'] = 1
+            out['counts']['violations_raw'] = 1
+        else:
+            out['status'] = 'error'
+            out['err'] = '%s: %s\n%s' % (type(e).__name__, e,
+                                         traceback.format_exc()[-1500:])
     out['wall'] = time.time() - t0
     out['name'] = case.get('name', '?')
     return out
